@@ -519,6 +519,10 @@ def run(F, R, tier):
         elif use == "unwrapped":
             # a panic, not a false acceptance: reported under C16/C05 where the property says "never as a crash"
             r7.note("%s unwraps the verification result (panic on invalid signature): reported by C16-R1/C05" % L.short(p))
+    # … and the key they hand to it is the caller's: CoreDocument::verify_jws resolves the configured method id (else the kid) once, within
+    # the configured scope, and fails when it is not found (C08-R5 decides it; a fallback to another lookup would verify under a key the
+    # caller did not name)
+    L.depends_on(r7, F, tier, ["C08-R5"], "the public key handed to JwsValidationItem::verify is the one the caller's options name")
     r7.floor(3)
 
 
